@@ -53,6 +53,9 @@ type cluster struct {
 	// AutoYields switches the inserted scheduling points on for this run
 	AutoYields bool
 	deadlocked atomic.Bool // a deadlock was reported at the inserted lock points
+	// lifeGids: goroutines other than the lifecycle task that are inside a lifecycle call right now (an application
+	// command that restarts the server): like the lifecycle task they keep only the hand-placed scheduling points
+	lifeGids sync.Map
 	harnessGid uint64
 	// Contend[i]: the i-th acquisition of the command lock meets a busy lock (phantom holder, see contend)
 	Contend  []bool
@@ -156,6 +159,20 @@ func newCluster(tape *sim.Tape, o *Outcome) *cluster {
 			readHeld[g][key] += d
 		}
 	}
+	// write locks held per goroutine: a goroutine that arrives at a lock point of a lock it holds itself (and that
+	// nobody has released in the meantime) can never get it
+	writeHeld := map[uint64]map[uintptr]int{}
+	wheld := func(g uint64, key uintptr, d int) int {
+		hookMu.Lock()
+		defer hookMu.Unlock()
+		if writeHeld[g] == nil {
+			writeHeld[g] = map[uintptr]int{}
+		}
+		if writeHeld[g][key]+d >= 0 {
+			writeHeld[g][key] += d
+		}
+		return writeHeld[g][key]
+	}
 	wait := func(m map[uintptr]map[uint64]string, g uint64, key uintptr, point string, obj any) {
 		hookMu.Lock()
 		defer hookMu.Unlock()
@@ -183,13 +200,25 @@ func newCluster(tape *sim.Tape, o *Outcome) *cluster {
 			held(g, key, -1)
 			return
 		case strings.HasPrefix(point, "unlock:"):
+			wheld(g, key, -1)
 			return
 		}
-		if s.CurrentTask() == "life" {
+		if _, lifeCall := cl.lifeGids.Load(g); s.CurrentTask() == "life" || lifeCall {
 			// lifecycle calls keep their hand-placed yields only: Stop closes the connections in Go map order, and
 			// scheduling points inside that loop would make the order part of the schedule
 			if strings.HasPrefix(point, "rlock:") {
 				held(g, key, 1)
+			}
+			if strings.HasPrefix(point, "lock:") {
+				if wheld(g, key, 0) > 0 && !s.Aborting() {
+					if free := lockProbe(obj); free != nil && !free() {
+						cl.O.violate("deadlock:lock-taken-again-by-its-holder:"+strings.TrimPrefix(point, "lock:"),
+							"a goroutine that holds the lock (not a reentrant one) is about to take it again (%s): it waits for itself for ever, and everybody else for it", point)
+						cl.deadlocked.Store(true)
+						runtime.Goexit() // it must not run into the deadlock for real
+					}
+				}
+				wheld(g, key, 1)
 			}
 			return
 		}
@@ -197,11 +226,19 @@ func newCluster(tape *sim.Tape, o *Outcome) *cluster {
 		switch {
 		case strings.HasPrefix(point, "lock:"):
 			// gated like exec.lock: released only when the lock is free, so no task ever blocks on a real mutex
+			if wheld(g, key, 0) > 0 && !s.Aborting() {
+				if free := lockProbe(obj); free != nil && !free() {
+					cl.O.violate("deadlock:lock-taken-again-by-its-holder:"+strings.TrimPrefix(point, "lock:"),
+						"a goroutine that holds the lock (not a reentrant one) is about to take it again (%s): it waits for itself for ever, and everybody else for it", point)
+					cl.deadlocked.Store(true)
+				}
+			}
 			wait(writeWait, g, key, point, obj)
 			if s.Park("?", "auto:"+point, obj, lockProbe(obj)) && cl.deadlocked.Load() {
 				runtime.Goexit() // teardown after a reported deadlock: the goroutines involved must not run into it for real
 			}
 			wait(writeWait, g, key, "", nil)
+			wheld(g, key, 1)
 		case strings.HasPrefix(point, "rlock:"):
 			wait(readWait, g, key, point, obj)
 			if s.Park("?", "auto:"+point, obj, rlockProbe(obj)) && cl.deadlocked.Load() {
@@ -966,7 +1003,7 @@ func (cl *cluster) probe(addr string, name string, budget int) (bool, string) {
 		acts := c.actions()
 		// tasks needed by the probe: the accept loop of its address and its own connection task
 		for _, t := range cl.S.Runnable() {
-			if l, ok := t.Obj.(*sim.Listener); ok && l.Addr().String() == addr {
+			if cl.isAcceptLoop(t, addr) {
 				t := t
 				acts = append(acts, sim.Action{Key: "run " + t.Name, Do: func() { cl.S.Release(t) }})
 			}
@@ -982,6 +1019,18 @@ func (cl *cluster) probe(addr string, name string, budget int) (bool, string) {
 		acts[0].Do()
 	}
 	return false, "step budget exhausted"
+}
+
+// isAcceptLoop: t is the accept loop of the listener at addr - parked in Accept, or (with inserted scheduling
+// points) anywhere else between two Accept calls.
+func (cl *cluster) isAcceptLoop(t *sim.Task, addr string) bool {
+	if l, ok := t.Obj.(*sim.Listener); ok && l.Addr().String() == addr {
+		return true
+	}
+	if l := cl.N.Bound(addr); l != nil && t.Name == fmt.Sprintf("L%d", l.ID) {
+		return true
+	}
+	return false
 }
 
 // anonymous: a goroutine that reached an inserted scheduling point before any park point that names it (a
